@@ -53,7 +53,8 @@ auto dr_numerical(auto && f, auto && x)
       const auto nx_j            = dof<W>(w);
 
       for (auto j = 0; j != nx_j; ++j) {
-        Scalar eps_j = eps;
+        const PlainObject<W> w_orig = w;  // restored by assignment: rplus(rplus(w, a), -a) drifts by rounding
+        Scalar eps_j   = eps;
         if constexpr (std::is_base_of_v<Eigen::MatrixBase<W>, W>) {
           // scale step size if we are in Rn
           eps_j *= abs(w[j]);
@@ -61,7 +62,7 @@ auto dr_numerical(auto && f, auto && x)
         }
         w             = rplus<W>(w, (eps_j * Eigen::Vector<Scalar, Nx_j>::Unit(nx_j, j)).eval());
         J.col(I0 + j) = rminus<Result>(std::apply(f, x_nc), fval) / eps_j;
-        w             = rplus<W>(w, (-eps_j * Eigen::Vector<Scalar, Nx_j>::Unit(nx_j, j)).eval());
+        w             = w_orig;
       }
       I0 += nx_j;
     });
@@ -89,6 +90,10 @@ auto dr_numerical(auto && f, auto && x)
         const auto nx_i1            = dof<W1>(w1);
 
         for (auto k0 = 0; k0 != nx_i0; ++k0) {
+          // arguments are restored by assignment: rplus(rplus(w, a), -a) drifts by rounding
+          const PlainObject<W0> w0_orig = w0;
+          const PlainObject<W1> w1_orig = w1;
+
           Scalar eps0 = sqrteps;
           if constexpr (std::is_base_of_v<Eigen::MatrixBase<W0>, W0>) {
             eps0 *= abs(w0[k0]);
@@ -97,7 +102,7 @@ auto dr_numerical(auto && f, auto && x)
 
           w0               = rplus<W0>(w0, eps0 * Eigen::Vector<Scalar, Nx_i0>::Unit(nx_i0, k0));
           const Result F10 = std::apply(f, x_nc);
-          w0               = rplus<W0>(w0, -eps0 * Eigen::Vector<Scalar, Nx_i0>::Unit(nx_i0, k0));
+          w0               = w0_orig;
 
           const Eigen::Matrix<Scalar, Ny, 1> d1 = rminus(F10, fval);
 
@@ -109,7 +114,7 @@ auto dr_numerical(auto && f, auto && x)
           }
           w0             = rplus<W0>(w0, epsJ * Eigen::Vector<Scalar, Nx_i0>::Unit(nx_i0, k0));
           J.col(I0 + k0) = rminus<Result>(std::apply(f, x_nc), fval) / epsJ;
-          w0             = rplus<W0>(w0, -epsJ * Eigen::Vector<Scalar, Nx_i0>::Unit(nx_i0, k0));
+          w0             = w0_orig;
 
           for (auto k1 = 0; k1 < nx_i1; ++k1) {
             Scalar eps1 = sqrteps;
@@ -123,8 +128,8 @@ auto dr_numerical(auto && f, auto && x)
             const Result F01 = std::apply(f, x_nc);
             w0               = rplus<W0>(w0, eps0 * Eigen::Vector<Scalar, Nx_i0>::Unit(nx_i0, k0));
             const Result F11 = std::apply(f, x_nc);
-            w0               = rplus<W0>(w0, -eps0 * Eigen::Vector<Scalar, Nx_i0>::Unit(nx_i0, k0));
-            w1               = rplus<W1>(w1, -eps1 * Eigen::Vector<Scalar, Nx_i1>::Unit(nx_i1, k1));
+            w0               = w0_orig;
+            w1               = w1_orig;
 
             const Eigen::Matrix<Scalar, Ny, 1> d2 = (rminus(F11, F01) - d1) / eps0 / eps1;
             for (auto j = 0u; j < ny; ++j) { H(I0 + k0, j * nx + I1 + k1) = d2(j); }
